@@ -391,6 +391,7 @@ func TestVerif_C08(t *testing.T) {
 			"(empty, strict prefix, extension, siblings, 0xff..) x proof database in {Prove output (fresh trie, and trie re-opened from unresolved hash nodes), " +
 			"Prove output minus EVERY non-empty subset of its nodes, all genuine nodes of ALL tries of the family, that set minus each single proof node, " +
 			"Prove output verified against the root of each single-assignment-edit neighbour trie, each proof node replaced by each of its truncations}; " +
+			"plus family S: StateTrie (keys stored under their Keccak-256) over every non-empty assignment of the 6 A2 keys x 9 query keys, honest proofs only; " +
 			"distinct = (root,key) pairs; evaluations = VerifyProof/Prove executions")
 		r.Bound("keys_per_family", nkeys)
 		r.Bound("values", 3)
@@ -649,6 +650,62 @@ func TestVerif_C08(t *testing.T) {
 			if r.Expired() {
 				return
 			}
+		}
+		// StateTrie (secure trie): keys are stored under their Keccak-256; Prove takes the hashed key.
+		if only.Fam == "" || only.Fam == "S" {
+			famA := c08Families(6)[0]
+			queries := append(append([][]byte{}, famA.keys...), common.FromHex("0x0002"), common.FromHex("0xffff"), []byte{})
+			local := map[string]int64{}
+			for ti := 1; ti < 1<<12; ti++ {
+				dig := c08Digits(ti, 6)
+				ds := c08DigStr(dig)
+				if only.Trie != "" && only.Trie != ds {
+					continue
+				}
+				var ents []c08Ent
+				st, err := NewStateTrie(TrieID(crypto.Keccak256Hash([]byte{0x80})), c08NodeDB{c08DB{}})
+				if err != nil {
+					r.Violation("S:open", err.Error(), nil)
+					break
+				}
+				for i, d := range dig {
+					if d != 0 {
+						st.MustUpdate(famA.keys[i], c08Vs[d])
+						ents = append(ents, c08Ent{nib: c08Nibbles(crypto.Keccak256(famA.keys[i])), val: c08Vs[d]})
+					}
+				}
+				sort.Slice(ents, func(i, j int) bool { return bytes.Compare(ents[i].nib, ents[j].nib) < 0 })
+				ref := c08BuildRef(ents)
+				root := st.Hash()
+				for _, key := range queries {
+					hk := crypto.Keccak256(key)
+					want := c08Model(&famA, dig, key)
+					r.Case(c08Case{"S", ds, fmt.Sprintf("%x", key), "secure"}, func() error {
+						if root != ref.root {
+							return fmt.Errorf("StateTrie.Hash %x != reference root %x", root, ref.root)
+						}
+						proof := c08DB{}
+						if err := st.Prove(hk, proof); err != nil {
+							return fmt.Errorf("Prove: %v", err)
+						}
+						if err := c08SameDB(proof, ref.proofFor(hk)); err != nil {
+							return fmt.Errorf("StateTrie.Prove output differs from the reference path nodes: %v", err)
+						}
+						val, err := VerifyProof(root, hk, proof)
+						if want != nil {
+							local["secure:present"]++
+						} else {
+							local["secure:absent"]++
+						}
+						return c08Exact(val, err, want)
+					})
+					r.DistinctHash(mc.Hash64("S" + string(root[:]) + "|" + string(key)))
+				}
+			}
+			for k, v := range local {
+				r.OutcomeN("S/"+k, v)
+			}
+			r.Bound("S.tries", 1<<12-1)
 		}
 	})
 }
